@@ -1,4 +1,4 @@
-from sa.selftest.harness import M, T
+from sa.selftest.harness import M, T, Variant
 
 X = "sharepoint2text/parsing/extractors/"
 D = X + "data_types.py"
@@ -23,6 +23,7 @@ MUTANTS = [
     M("epub-first-creator-only", "sharepoint2text/parsing/extractors/epub_extractor.py", "        self._metadata.creator = get_dc_all(\"creator\")", "        self._metadata.creator = get_dc(\"creator\")", "C04-PROP"),
 ]
 TWINS = [
+    Variant("rtf-sanitiser-fast-path-by-regex", [("sharepoint2text/parsing/extractors/ms_legacy/rtf_extractor.py", "    if not any(\"\\ud800\" <= ch <= \"\\udfff\" for ch in text):\n        return text\n", "    if not _RE_ANY_SURROGATE.search(text):\n        return text\n"), ("sharepoint2text/parsing/extractors/ms_legacy/rtf_extractor.py", "_RE_MULTI_SPACE = re.compile(r\"[ \\t]+\")\n", "_RE_MULTI_SPACE = re.compile(r\"[ \\t]+\")\n_RE_ANY_SURROGATE = re.compile(\"[\\ud800-\\udfff]\")\n")], None),
     T("ppt-metadata-codepage-local", "sharepoint2text/parsing/extractors/ms_legacy/ppt_extractor.py", "                    codepage_doc if field in doc_summary_fields else codepage,", "                    (codepage_doc if field in doc_summary_fields else codepage),"),
     T("caption-or-empty", X + "open_office/odt_extractor.py", "        caption = title_elem.text if title_elem is not None and title_elem.text else \"\"\n        if not caption and name:", "        caption = (title_elem.text if title_elem is not None else None) or \"\"\n        if not caption and name:"),
 ]
